@@ -335,12 +335,12 @@ Example C11_ex_builder : (* the Chrome_146 builder: a full first slice and a sho
                             different oracle values are built, meet every hypothesis of
                             C11_builder_frame_types, differ as frame lists and agree as sets *)
   In (1, 4, 6, 14, 2, 6, 1215) uspec_parrot_builders /\
-  ProofsBuilder.slice_ok UPacker.ProofsRandom.ex_p (repeat 7 1145%nat) 0 /\
-  ProofsBuilder.slice_ok UPacker.ProofsRandom.ex_p (repeat 9 589%nat) 1145 /\
+  ProofsBuilder.slice_ok UPacker.ProofsRandom.ex_p (repeat 7 300%nat) 0 /\
+  ProofsBuilder.slice_ok UPacker.ProofsRandom.ex_p (repeat 9 120%nat) 300 /\
   exists ws1 r1 s1 ws2 r2 s2,
-    UFrames.Model.build_internal UPacker.ProofsRandom.ex_p (repeat 7 1145%nat) 0
+    UFrames.Model.build_internal UPacker.ProofsRandom.ex_p (repeat 7 300%nat) 0
       UPacker.ProofsRandom.ex_bs UPacker.ProofsRandom.ex_us = UFrames.Model.Ok (ws1, r1, s1) /\
-    UFrames.Model.build_internal UPacker.ProofsRandom.ex_p (repeat 9 589%nat) 1145
+    UFrames.Model.build_internal UPacker.ProofsRandom.ex_p (repeat 9 120%nat) 300
       (skipn 300 UPacker.ProofsRandom.ex_bs) (skipn 50 UPacker.ProofsRandom.ex_us) = UFrames.Model.Ok (ws2, r2, s2) /\
     dedup (isort (ProofsBuilder.wtypes ws1)) = [0; 1; 6] /\ dedup (isort (ProofsBuilder.wtypes ws2)) = [0; 1; 6] /\
     ProofsBuilder.wtypes ws1 <> ProofsBuilder.wtypes ws2.
